@@ -581,6 +581,11 @@ type g9Frame struct {
 	bind  map[*ssa.Parameter]g9Abs
 	phi   map[*ssa.Phi]g9Abs
 	outer *g9Frame // frame of the caller (a local closure reads the caller's variables)
+	// small local tables (ip_h5.go): the elements of local arrays as the stores on the path walked
+	// leave them, loads evaluated where they stand
+	mem   map[h5Cell]g9Abs
+	val   map[ssa.Value]g9Abs
+	whole map[ssa.Value]map[int64]g9Abs
 }
 
 // g9Cases follows the branch structure of a function - and of the same-package functions it calls
@@ -589,9 +594,10 @@ type g9Frame struct {
 // abstract values, and anything that is not a comparison of the coordinate with zero, the flag, a
 // constant or a call of such a function is unknown.
 type g9Cases struct {
-	c     *Ctx
-	sign  int
-	steps int
+	c      *Ctx
+	sign   int
+	steps  int
+	stopAt ssa.Instruction // when the walk stops in a block: the instruction it stops before
 }
 
 func g9IsZero(c *ssa.Const) bool {
@@ -625,7 +631,21 @@ func (e *g9Cases) eval(v ssa.Value, fr *g9Frame, depth int) g9Abs {
 		return fr.bind[x]
 	case *ssa.Phi:
 		return fr.phi[x]
+	case *ssa.Lookup:
+		// "NS"[i]: a byte of a constant string selected by a constant
+		if xa := e.eval(x.X, fr, depth); xa.kind == g9Constant && xa.c != nil {
+			return h5ConstStringByte(xa.c, e.eval(x.Index, fr, depth))
+		}
+		return g9Abs{}
+	case *ssa.Index:
+		if xa := e.eval(x.X, fr, depth); xa.kind == g9Constant && xa.c != nil {
+			return h5ConstStringByte(xa.c, e.eval(x.Index, fr, depth))
+		}
+		return g9Abs{}
 	case *ssa.UnOp:
+		if a, ok := fr.val[x]; ok {
+			return a // an element of a small local table, as it was where the load stands
+		}
 		switch x.Op {
 		case token.NOT:
 			a := e.eval(x.X, fr, depth)
@@ -682,6 +702,11 @@ func (e *g9Cases) eval(v ssa.Value, fr *g9Frame, depth int) g9Abs {
 			case token.NEQ:
 				return g9Abs{kind: g9Boolean, b: a.b != b.b}
 			}
+		case a.kind == g9Constant && b.kind == g9Constant:
+			// two integer constants of the case (an index selected by the sign, compared with a bound)
+			if t, ok := h5CompareConsts(a, b, op); ok {
+				return g9Abs{kind: g9Boolean, b: t}
+			}
 		}
 	case *ssa.Call:
 		return e.call(x, 0, fr, depth)
@@ -714,7 +739,7 @@ func (e *g9Cases) call(call *ssa.Call, idx int, fr *g9Frame, depth int) g9Abs {
 // reached (stop != nil) or the function returns (stop == nil). why is non-empty when a branch
 // cannot be decided or the walk ends elsewhere.
 func (e *g9Cases) run(fn *ssa.Function, bind map[*ssa.Parameter]g9Abs, stop *ssa.BasicBlock, outer *g9Frame, depth int) (fr *g9Frame, ret *ssa.Return, why string) {
-	fr = &g9Frame{fn: fn, bind: bind, phi: map[*ssa.Phi]g9Abs{}, outer: outer}
+	fr = &g9Frame{fn: fn, bind: bind, phi: map[*ssa.Phi]g9Abs{}, outer: outer, mem: map[h5Cell]g9Abs{}, val: map[ssa.Value]g9Abs{}, whole: map[ssa.Value]map[int64]g9Abs{}}
 	if len(fn.Blocks) == 0 {
 		return fr, nil, "no body"
 	}
@@ -741,6 +766,13 @@ func (e *g9Cases) run(fn *ssa.Function, bind map[*ssa.Parameter]g9Abs, stop *ssa
 			for ph, a := range vals {
 				fr.phi[ph] = a
 			}
+		}
+		// stores into small local tables and loads from them, in program order (ip_h5.go)
+		for _, in := range cur.Instrs {
+			if stop != nil && cur == stop && (e.stopAt == nil || in == e.stopAt) {
+				break
+			}
+			e.h5Exec(in, fr, depth)
 		}
 		if stop != nil && cur == stop {
 			return fr, nil, ""
@@ -869,6 +901,7 @@ type g9Line struct {
 	chain  []ssa.CallInstruction // calls from the anchored function down to fn (outermost first)
 	conds  []g9CondAt            // conditions on the chain's calls and on the write
 	dst    ssa.Value             // the writer / buffer written to, in the outermost terms reachable
+	dstSel string                // ... followed by these field selections (a builder inside a small local type)
 }
 
 // top: the instruction of the anchored function at which the line is written.
@@ -905,6 +938,17 @@ func g9FormatArg(ci ssa.CallInstruction) ssa.Value {
 // g9Lines enumerates the formatted writes with a foldable format in fn and, through calls of
 // same-package functions and local closures, below it.
 func g9Lines(c *Ctx, fn *ssa.Function, chain []ssa.CallInstruction, conds []g9CondAt, visit func(l g9Line)) {
+	// a line written piecewise - WriteString(key); WriteString(": "); WriteString(value) ... - is one
+	// line: literal text written to the same destination by consecutive calls of one block (no
+	// other call between them) is joined until the text ends a line or stops being constant
+	var open *g9Line
+	flush := func() {
+		if open != nil {
+			visit(*open)
+			open = nil
+		}
+	}
+	defer flush()
 	for _, ci := range allCalls(fn) {
 		com := ci.Common()
 		here := conds
@@ -922,17 +966,40 @@ func g9Lines(c *Ctx, fn *ssa.Function, chain []ssa.CallInstruction, conds []g9Co
 		if g9WriteCalls[callName(com)] {
 			fa := g9FormatArg(ci)
 			if fa == nil {
+				flush()
 				continue
 			}
-			if s, ok := g9FoldString(fa, chain, 0); ok || s != "" {
-				var dst ssa.Value
-				if callName(com) != "fmt.Sprintf" && len(com.Args) > 0 {
-					dst = g9UpAddr(unwrap(com.Args[0]), chain)
+			s, ok := g9FoldString(fa, chain, 0)
+			if ok {
+				// "%s: %s\r\n" with the label passed for the first verb: fold the leading plain string
+				// verbs whose arguments are constants (bound along the chain) into the format (ip_h5.go)
+				s = h5FoldVerbArgs(ci, fa, s, chain)
+			}
+			var dst ssa.Value
+			sel := ""
+			if callName(com) != "fmt.Sprintf" && len(com.Args) > 0 {
+				dst, sel = h5AddrKey(com.Args[0], chain)
+			}
+			literal := h5LiteralWrites[callName(com)]
+			if open != nil && literal && ci.Block() == open.write.Block() && dst != nil && dst == open.dst && sel == open.dstSel {
+				open.format += s
+				if !ok || strings.Contains(s, "\n") {
+					flush()
 				}
-				visit(g9Line{format: s, write: ci, fn: fn, chain: chain, conds: here, dst: dst})
+				continue
+			}
+			flush()
+			if ok || s != "" {
+				l := g9Line{format: s, write: ci, fn: fn, chain: chain, conds: here, dst: dst, dstSel: sel}
+				if literal && ok && dst != nil && !strings.Contains(s, "\n") {
+					open = &l
+				} else {
+					visit(l)
+				}
 			}
 			continue
 		}
+		flush()
 		if _, isCall := ci.(*ssa.Call); !isCall || len(chain) >= g9MaxDepth {
 			continue
 		}
@@ -1041,10 +1108,22 @@ func g9NonEmptyText(c *Ctx, fn *ssa.Function, v ssa.Value, at ssa.Instruction, c
 			return false
 		}
 		if n == "bytes.Buffer.String" || n == "strings.Builder.String" {
-			buf := g9UpAddr(x.Call.Args[0], nil)
+			// the buffer in the outermost terms reachable: a local of this function, or - when this
+			// is (a helper of) the String method of a small local type wrapping the builder - a local of
+			// a caller on the chain, whose writes then have to precede the call that led here
+			buf, sel := h5AddrKey(x.Call.Args[0], chain)
+			owner, top := fn, at
+			if al, ok := buf.(*ssa.Alloc); ok && al.Parent() != fn {
+				for k := range chain {
+					if chain[k].Parent() == al.Parent() {
+						owner, top = al.Parent(), chain[k]
+						break
+					}
+				}
+			}
 			found := false
-			g9Lines(c, fn, nil, nil, func(l g9Line) {
-				if found || l.dst == nil || l.dst != buf || !instrDominates(l.top(), at) {
+			g9Lines(c, owner, nil, nil, func(l g9Line) {
+				if found || l.dst == nil || l.dst != buf || l.dstSel != sel || !instrDominates(l.top(), top) {
 					return
 				}
 				// inside helpers the write must be unconditional
